@@ -244,6 +244,14 @@ fn run_reject(ch: &mut Chooser) -> Outcome {
 }
 
 pub fn replay(v: &Value) -> Outcome {
+    if let Some(q) = v["qml"].as_str() {
+        // text replay: a well-typed document that must be accepted without diagnostics
+        let t = translate(q, "T", Mode::Generate);
+        if t.accepted() && t.diags.is_empty() {
+            return Outcome::pass(None);
+        }
+        return Outcome::fail(v["key"].as_str().unwrap_or("c05-rejects-valid").to_owned(), format!("well-typed document is not accepted: {:?} {:?}", t.syntax_errors, t.diag_summary()), json!({"qml": q, "diagnostics": t.diag_summary(), "syntax_errors": t.syntax_errors}));
+    }
     let reject = v["part"].as_str() == Some("single-edit");
     let lt = v["part"].as_str() == Some("less-than-probe");
     match choices_from_json(v) {
